@@ -61,6 +61,11 @@ type Grammar struct {
 	// AliasRefs makes the parser section refer to tokens by their literal
 	// ('x') instead of by name (X).
 	AliasRefs bool
+	// PrecSpelling selects how precedence levels are written (the order of
+	// the values is the order of the levels in every spelling):
+	// 0 plain 1,2,3..; 1 leading zeros and a step over a power of the octal
+	// base (9, 010, 011, 012 ..); 2 wide gaps (1, 20, 300, 4000 ..).
+	PrecSpelling int
 }
 
 func (g *Grammar) Lit(i int) string {
@@ -116,12 +121,26 @@ func (g *Grammar) AltText(a Alt) string {
 	s := strings.Join(parts, " ")
 	if a.Prec > 0 {
 		if a.Assoc == Right {
-			s += fmt.Sprintf(" @right(%d)", a.Prec)
+			s += fmt.Sprintf(" @right(%s)", g.PrecText(a.Prec))
 		} else {
-			s += fmt.Sprintf(" @left(%d)", a.Prec)
+			s += fmt.Sprintf(" @left(%s)", g.PrecText(a.Prec))
 		}
 	}
 	return s
+}
+
+// PrecText is the numeral written for level p.
+func (g *Grammar) PrecText(p int) string {
+	switch g.PrecSpelling {
+	case 1:
+		if p == 1 {
+			return "9"
+		}
+		return fmt.Sprintf("0%d", p+8)
+	case 2:
+		return fmt.Sprint(p) + strings.Repeat("0", p-1)
+	}
+	return fmt.Sprint(p)
 }
 
 // ParserText is the @parser section.
@@ -210,7 +229,7 @@ func (g *Grammar) CarrierUserGo(bounds bool) string {
 
 // Clone deep-copies g.
 func (g *Grammar) Clone() *Grammar {
-	c := &Grammar{Toks: append([]string(nil), g.Toks...), AliasRefs: g.AliasRefs}
+	c := &Grammar{Toks: append([]string(nil), g.Toks...), AliasRefs: g.AliasRefs, PrecSpelling: g.PrecSpelling}
 	if g.Lits != nil {
 		c.Lits = append([]string(nil), g.Lits...)
 	}
@@ -249,4 +268,17 @@ func (g *Grammar) HasQualifiers() bool {
 		}
 	}
 	return false
+}
+
+// RenameRules renames the rules so that their names sort differently
+// relative to the token names (lox orders symbols by name in several places).
+// Scheme 1: Ea, Eb, Ec, .. (upper-case initial: before most token names and
+// with the start rule first).
+func (g *Grammar) RenameRules(scheme int) {
+	if scheme != 1 {
+		return
+	}
+	for i := range g.Rules {
+		g.Rules[i].Name = "E" + string(rune('a'+i))
+	}
 }
